@@ -46,6 +46,11 @@ def gen_F(rng, n):
         norm = float(rng.uniform(1.1, 2.5))
         bounded = False
     v = v / np.abs(v).sum() * norm
+    if not bounded and rng.random() < 0.4:
+        # one coefficient larger than 1 + the sum of the others: |F| > 1 on the WHOLE circle, no real G exists at all
+        v = v / np.abs(v).sum() * float(rng.uniform(0.05, 0.6))
+        v[int(rng.integers(0, n + 1))] = float(rng.choice([-1, 1])) * float(rng.uniform(1.7, 3.5))
+        klass += "/dominated"
     klass = "%s/%s" % (klass, "bounded" if bounded else "unbounded")
     # keep both extreme coefficients above 1e-3 in most cases (the stated family)
     tiny_ext = rng.random() < 0.16
@@ -104,6 +109,13 @@ def _one(ctx, C, LP, Fc, klass, fam, seedv, tol):
         rec["poly"] = np.array(poly, dtype=float)
         return r
     np.roots = roots
+    if zlib.crc32(repr(Fc).encode()) % 5 == 0:
+        try:                         # the other KIND of call on the same numbers first (its outcome is C05's business)
+            with core.quiet():
+                C.completion_from_root_finding(np.array(Fc, dtype=complex), coef_type="P")
+        except Exception:  # noqa
+            pass
+        ctx.count("cross-kind:P-call-first")
     try:
         with core.quiet():
             if DEFAULT_TOL[0]:       # the documented default (1e-6), not passed
